@@ -250,7 +250,11 @@ fn multi_case(r: &mut Rng, id: usize) -> Case {
         for _ in 0..n { body.push(St::Call(r.chance(1, 2), simple_call(r, &mut keys))); }
         let ret = match r.below(5) { 0 | 1 => None, 2 => Some(E::Res(n)), 3 => Some(E::Res(1 + r.below(n as u64 + 1) as usize)), _ => Some(E::Table(vec![E::Res(1), E::Str(b"|".to_vec()), E::Res(n)])) };
         let c = 1 + r.below(2) as i64;
+        // sometimes inside MULTI/EXEC: the script then runs from the queue (exec_queue -> exec_db -> exec_scripts)
+        let queued = r.chance(1, 5);
+        if queued { ops.push(cmd_op(c, &[b"MULTI"])); ops.push(cmd_op(c, &[b"INCR", b"cnt"])); }
         ops.push(eval_op(c, &print_script(&Script { body, ret }, true), &keys, &[]));
+        if queued { ops.push(cmd_op(c, &[b"EXEC"])); }
         // the other connection observes the state between scripts
         ops.push(cmd_op(3 - c, &[b"MGET", b"k1", b"k2", b"nokey"]));
     }
